@@ -153,7 +153,9 @@ def soup(rng, maxparts=12, foreign=True):
 
 def parse_real(text, tb="etree", fragment=None, **kw):
     import html5lib
-    p = html5lib.HTMLParser(tree=html5lib.getTreeBuilder(tb), namespaceHTMLElements=kw.pop("ns", True))
+    full = kw.pop("full", False)
+    builder = html5lib.getTreeBuilder(tb, fullTree=True) if (full and tb == "etree") else html5lib.getTreeBuilder(tb)
+    p = html5lib.HTMLParser(tree=builder, namespaceHTMLElements=kw.pop("ns", True))
     if fragment is not None:
         return p.parseFragment(text, container=fragment, **kw)
     return p.parse(text, **kw)
